@@ -33,7 +33,7 @@ LEVEL_TEXT = ("Each of ~30 single faults (forcing not covering the window, frame
               "illegal subgrids) is injected into each of 8 base scenarios (quick) plus 400 random bases (thorough); the real start-up must refuse every one before the first step and write no record.")
 LEVEL_NOTE = "Single faults only. 'Refused' = SystemExit with a non-zero code or any other exception raised before the first Model.update; the fault-free base must complete, otherwise the case is void and not counted."
 RULE = ("case = (base, fault). Non-trivial: the base ran and the fault is really present in the files/configuration written (e.g. the unsorted frame times are read back); distinct by (base, fault).")
-MANDATORY = ["forcing_ends_inside_the_last_partial_step_reversed", "forcing_ends_inside_the_last_partial_step_forward", "fault_in_a_version_1_configuration", "fault_in_a_warm_started_setup", "forcing_files_with_different_time_units", "refused_before_first_step", "base_forward", "base_reversed", "base_multifile", "base_continuous", "subprocess_exit_status_checked", "fault_presence_verified", "fault_written_over_a_valid_setup", "base_with_legal_negative_subgrid", "subgrid_fault_with_negative_limits"]
+MANDATORY = ["coverage_fault_with_the_ROMS2_modules", "release_rows_outside_the_window_not_in_time_order", "forcing_ends_inside_the_last_partial_step_reversed", "forcing_ends_inside_the_last_partial_step_forward", "fault_in_a_version_1_configuration", "fault_in_a_warm_started_setup", "forcing_files_with_different_time_units", "refused_before_first_step", "base_forward", "base_reversed", "base_multifile", "base_continuous", "subprocess_exit_status_checked", "fault_presence_verified", "fault_written_over_a_valid_setup", "base_with_legal_negative_subgrid", "subgrid_fault_with_negative_limits"]
 ASSUMPTIONS = ["single faults (no combinations)"]
 TIMEOUT = {"quick": 1200, "thorough": 3500}
 
@@ -45,7 +45,7 @@ FAULTS = ["forcing_ends_early", "forcing_starts_late", "forcing_starts_late_subs
           "subgrid_i0_far_negative", "subgrid_j0_far_negative", "subgrid_negative_i1_le_i0", "subgrid_negative_j1_le_j0", "subgrid_i1_minus_imax",
           "v1_missing_grid_file", "v1_missing_forcing_file", "warm_start_stop_not_after_restart_time",
           "last_frame_duplicated", "last_frame_steps_back", "continuous_release_without_a_tick_in_the_window",
-          "forcing_ends_inside_the_last_partial_step"]
+          "forcing_ends_inside_the_last_partial_step", "releases_straddle_window_rows_not_in_time_order", "roms2_forcing_ends_early", "roms2_forcing_starts_late"]
 
 
 def bases(tier: str, seed: int) -> list[dict[str, Any]]:
@@ -82,7 +82,7 @@ def gen_cases(tier: str, seed: int) -> list[dict[str, Any]]:
     cases = []
     for b in bases(tier, seed):
         for f in FAULTS:
-            if f in ("releases_all_before_start", "releases_straddle_window") and b["cont"]:
+            if f in ("releases_all_before_start", "releases_straddle_window", "releases_straddle_window_rows_not_in_time_order") and b["cont"]:
                 continue  # not a fault: in continuous mode rows before the start keep releasing at every tick inside the window
             if f.startswith("v1_") and b["reversed"]:
                 continue  # the legacy spelling is exercised for forward runs
@@ -105,6 +105,9 @@ def base_files(b: dict[str, Any], wd: Path, fault: str | None):
         if fault == "forcing_ends_inside_the_last_partial_step":
             fr = [f for f in fr if f < ns] + [ns + 0.25]
             files = [len(fr)]
+    if fault in ("roms2_forcing_ends_early", "roms2_forcing_starts_late"):
+        fr = [f for f in fr if (f < ns - 1 if fault.endswith("early") else f > 0)]
+        files = [len(fr)]
     if fault == "forcing_ends_early":  # no frame at or after the end of the window (in simulation order)
         fr = [f for f in fr if f < ns - 1]
         files = [len(fr)]
@@ -155,6 +158,8 @@ def base_files(b: dict[str, Any], wd: Path, fault: str | None):
         steps = [-1]
     elif fault == "releases_straddle_window":  # rows before the start and at/after the stop, none inside
         steps = [-2, -1, ns, ns + 2]
+    elif fault == "releases_straddle_window_rows_not_in_time_order":  # the same, the file grouped by release site instead of by time
+        steps = [-2, ns + 2, -1, ns + 1]
     cols = ["release_time", "X", "Y", "Z"]
     rows = [[str(tadd(start, sgn * s * dt)), 6.0 + 0.1 * k, 5.0, 1.0] for k, s in enumerate(steps)]
     if fault == "release_without_position":
@@ -192,6 +197,11 @@ def apply_conf_fault(conf: dict[str, Any], fault: str | None, b: dict[str, Any],
         conf["forcing"]["filename"] = str(wd / "no_such_forcing_*.nc")
     elif fault == "missing_release_file":
         conf["release"]["release_file"] = str(wd / "no_such_release.rls")
+    elif fault in ("roms2_forcing_ends_early", "roms2_forcing_starts_late", "_roms2_valid"):
+        # the documented alternative grid/forcing module (adaptive subgrid) has its own coverage check
+        conf["grid"]["module"] = "ladim.ROMS2"
+        conf["forcing"]["module"] = "ladim.ROMS2"
+        conf["grid"].pop("subgrid", None)
     elif fault and fault.startswith("missing_") and fault.endswith("_section"):
         conf.pop(fault[len("missing_"):-len("_section")])
     elif fault and fault.startswith("subgrid"):
@@ -265,7 +275,7 @@ def one_run(b: dict[str, Any], fault: str | None, wd: Path, sub: bool):
     # --- verify the fault is really in what ladim will read
     present = v1_valid_runs
     if fault in ("last_frame_duplicated", "last_frame_steps_back", "frames_unsorted_in_file", "frames_unsorted_across_files", "frame_duplicated_across_files", "forcing_ends_early", "forcing_starts_late",
-                 "forcing_starts_late_substep", "forcing_ends_early_substep", "forcing_ends_inside_the_last_partial_step"):
+                 "forcing_starts_late_substep", "forcing_ends_early_substep", "forcing_ends_inside_the_last_partial_step", "roms2_forcing_ends_early", "roms2_forcing_starts_late"):
         ts = []
         for fn in world["files"]:
             with Dataset(fn) as nc:
@@ -319,7 +329,7 @@ def run_case(case: dict[str, Any], wd: Path) -> dict[str, Any]:
     # the faulty set-up is written over the valid one: same directory, same file names, same process (what a user who edits
     # or replaces files between two runs does)
     shared = (b["id"] + FAULTS.index(fault)) % 2 == 0
-    basefault = "_partial_stop_valid" if fault == "forcing_ends_inside_the_last_partial_step" else None  # the valid twin has the same (off-grid) stop time
+    basefault = "_partial_stop_valid" if fault == "forcing_ends_inside_the_last_partial_step" else ("_roms2_valid" if fault.startswith("roms2_") else None)  # the valid twin has the same (off-grid) stop time
     res0, nupd0, nwrite0, nrec0, _p, _s = one_run(copy.deepcopy(b), basefault, wd / ("run" if shared else "base"), False)
     if shared:
         import shutil  # noqa: PLC0415
@@ -348,6 +358,10 @@ def run_case(case: dict[str, Any], wd: Path) -> dict[str, Any]:
     sit["fault_written_over_a_valid_setup"] = int(shared)
     sit["fault_in_a_version_1_configuration"] = int(fault.startswith("v1_") and present)
     sit["fault_in_a_warm_started_setup"] = int(fault.startswith("warm_"))
+    if fault.startswith("roms2_"):
+        sit["coverage_fault_with_the_ROMS2_modules"] = int(bool(present))
+    if fault == "releases_straddle_window_rows_not_in_time_order":
+        sit["release_rows_outside_the_window_not_in_time_order"] = 1
     if fault == "forcing_ends_inside_the_last_partial_step":
         sit["forcing_ends_inside_the_last_partial_step_" + ("reversed" if b["reversed"] else "forward")] = int(bool(present))
     cnt["fault_runs"] = 1
